@@ -69,11 +69,14 @@ def constructs():
     c['list_marker'] = lambda n, form: '* ' * n + 'a'
     c['enum_marker'] = lambda n, form: '1. ' * n + 'a'
     c['deflist'] = lambda n, form: 'term\n' + ': ' * n + 'a'
+    # flat (not nested) repetition inside one document: n CriticMarkup changes / n occurrences of a defined abbreviation
+    c['flat_critic'] = lambda n, form: 'a {++b++} {--c--} {~~d~>e~~} {==f==}{>>g<<}\n' * (n // 4 + 1)
+    c['flat_abbrev'] = lambda n, form: '[>AB]: expansion\n\n[?term]: gloss\n\n' + 'AB x term y\n' * (n // 2 + 1)
     c['table_pipes'] = lambda n, form: '|'.join('a' for _ in range(n)) + '\n' + '|'.join('-' for _ in range(n)) + '\n' + '|'.join('b' for _ in range(n)) + '\n'
     return c
 
 
-SINGLE_FORM = {'sup', 'sub', 'backtick', 'blockquote', 'bq_lines', 'list_indent', 'list_marker', 'enum_marker', 'deflist', 'table_pipes'}
+SINGLE_FORM = {'flat_critic', 'flat_abbrev', 'sup', 'sub', 'backtick', 'blockquote', 'bq_lines', 'list_indent', 'list_marker', 'enum_marker', 'deflist', 'table_pipes'}
 
 PATTERNS = {'unopened_emph': 'a_', 'unclosed_emph': '_a', 'unopened_link': 'a]', 'unclosed_link': '[a', 'mismatched': '*a_', 'link_emph': '[ a_',
             'open_brackets': '[', 'close_brackets': ']'}
@@ -89,7 +92,7 @@ def prebuild():
 
 
 def _run_cli(cli, fmt, compat, data, timeout):
-    cmd = [cli, '-t', fmt] + (['-c'] if compat else [])
+    cmd = [cli, '-t', fmt] + {0: [], 1: ['-c'], 2: ['-a'], 3: ['-r']}[int(compat)]      # 2/3: CriticMarkup accept / reject pre-pass
     t0 = time.time()
     try:
         p = subprocess.run(cmd, input=data, stdout=subprocess.DEVNULL, stderr=subprocess.PIPE, timeout=timeout)
@@ -171,7 +174,7 @@ def replay(path):
     head, _, doc = data.partition(b'\n')
     m = re.match(rb'fmt=(\w+) compat=(\d)', head)
     if m:
-        rc, dt, err = _run_cli(vbuild.cli('plain'), m.group(1).decode(), m.group(2) == b'1', doc, 600)
+        rc, dt, err = _run_cli(vbuild.cli('plain'), m.group(1).decode(), int(m.group(2)), doc, 600)
         if rc == 0:
             print('replay passes:', path)
             return 0
@@ -196,6 +199,10 @@ def replay(path):
 
 def judge_cost(r, min_bytes=64 * 1024):
     big = [x for x in r['rungs'] if x[1] >= min_bytes]
+    if r.get('rc') is not None and r['rc'] < 0:
+        return 'stack:signal%d-on-repeat' % -r['rc'], 'cost meter killed by signal %d after rungs %s' % (-r['rc'], [(x[0], x[1]) for x in r['rungs'][-2:]])
+    if len(r['rungs']) >= 3 and r['rungs'][-1][3] > 4 * r['rungs'][0][3] + 64 * 1024:
+        return 'stack:grows-with-repetition', 'peak stack %d bytes at k=%d against %d bytes at k=%d' % (r['rungs'][-1][3], r['rungs'][-1][0], r['rungs'][0][3], r['rungs'][0][0])
     for x in r['rungs']:
         if x[3] > 6 * 1024 * 1024:
             return 'stack:peak-above-6MiB', 'k=%d stack=%d bytes' % (x[0], x[3])
@@ -231,6 +238,13 @@ def run(tier):
                         continue
                     rungs = rungs_full if fmt in ('html', 'latex') else rungs_small
                     tasks.append((name, form, fmt, compat, rungs, budget, work))
+            if name.startswith('critic'):
+                # the accept / reject pre-pass walks the CriticMarkup tree on its own
+                for mode in (2, 3):
+                    tasks.append((name, form, 'html', mode, rungs_full, budget, work))
+    for name in ('flat_critic', 'flat_abbrev'):
+        for mode in ((0, 2, 3) if name == 'flat_critic' else (0,)):
+            tasks.append((name, 'closed', 'html', mode, rungs_full[1:] + ([] if quick else [3000000]), budget, work))
     with cf.ProcessPoolExecutor(common.NCPU) as ex:
         for r in ex.map(ladder_task, tasks, chunksize=2):
             ev.evaluations += r['runs']
@@ -257,20 +271,26 @@ def run(tier):
             continue
         seeds.append(p)
     lines = ["text\n", "    code\n", "* item\n", "1. item\n", "> quote\n", "```\ncode\n```\n", "a | b\n--|--\nc | d\n", "term\n: def\n", "<div>\nx\n</div>\n",
+             "[>AB]: expansion\n\nAB x AB y\n", "[?term]: gloss\n\nsome term here\n", "a {++b++} {--c--} {~~d~>e~~} f\n",
              "***\n", "head\n===\n", "# head\n", "[a]: http://x\n", "[^a]: note\n\ntext[^a]\n", "*a* **b** `c` [l](u) ![i](p)\n", "x <a@b.cc> \"q\" -- ...\n"]
+    always = []
     for i, l in enumerate(lines):
         p = os.path.join(seeds_dir, 'line%02d.text' % i)
         open(p, 'w').write(l)
         seeds.append(p)
+        if '[>AB]' in l or '{++' in l or '[?term]' in l:
+            always.append(p)
     pats = []
     if quick:
         import random
         rnd = random.Random(common.seed())
-        seeds = rnd.sample(seeds, min(22, len(seeds)))
+        seeds = always + rnd.sample([x for x in seeds if x not in always], min(20, len(seeds)))
         fmts, max_bytes = ['html', 'latex', 'fodt'], 300 * 1024
     else:
         fmts, max_bytes = FMTS_ALL, 2 << 20
     ctasks = [(p, f, e, max_bytes, (60 if quick else 900) * scale) for p in seeds + pats for f in fmts for e in (EXT_MMD, EXT_COMPAT)]
+    # CriticMarkup accept / reject run a separate pass over the source before parsing
+    ctasks += [(p, 'html', EXT_MMD | e, max_bytes, (60 if quick else 900) * scale) for p in always + [x for x in seeds if 'Critic' in os.path.basename(x)] for e in (0x400, 0x800)]
     with cf.ProcessPoolExecutor(common.NCPU) as ex:
         for r in ex.map(cost_task, ctasks, chunksize=1):
             ev.evaluations += len(r['rungs'])
@@ -322,7 +342,7 @@ def run(tier):
             head, _, doc = data.partition(b'\n')
             m = re.match(rb'fmt=(\w+) compat=(\d)', head)
             if m:
-                rc, dt, err = _run_cli(vbuild.cli('plain'), m.group(1).decode(), m.group(2) == b'1', doc, 300)
+                rc, dt, err = _run_cli(vbuild.cli('plain'), m.group(1).decode(), int(m.group(2)), doc, 300)
                 ev.add_class('regression_replays')
                 ev.evaluations += 1
                 if rc != 0:
